@@ -1,5 +1,7 @@
 import PfModel.DriverLib
 import PfModel.Model.MapSpecParse
+import PfModel.Model.MapSpecRegex
+import PfModel.Model.MapSpecAxes
 /-! Driver for C08 (`mapspec.parse`, `mapspec.ops`, `mapspec.consistent`, `mapspec.axes`).
     Run: `lake env lean --run Driver/C08.lean < requests.jsonl`. -/
 open Lean PF.Drv PF.MS
@@ -85,6 +87,30 @@ def handle (m : String) (a : Json) : R Json := do
       let ops ← listF pure a "ops"
       let rs ← ops.mapM (doOp m)
       return jObj [("construct", jObj [("ok", putMS m)]), ("ops", jArr rs)]
+  | "findall" =>
+    -- `re.findall(array_pattern, s)` by the regex engine; `scanner_agrees` re-checks `C08_regex_findall` on this text
+    let s ← strF a "s"
+    if !ascii s then return jObj [("skip", jStr "non-ascii")]
+    let xs := s.toList
+    let ms := reFindAll arrayRe (xs.length + 1) xs
+    let strs := ms.map fun (g1, g2) => [String.ofList g1, String.ofList g2]
+    return jObj [("ok", jList (jList jStr) strs),
+                 ("scanner_agrees", jBool (decide (ms.map toSpec = findAll xs.length xs))),
+                 ("parse_agrees", jBool (match parse s, parseRe s with
+                    | .ok m1, .ok m2 => decide (m1 = m2)
+                    | .error e1, .error e2 => decide (e1 = e2)
+                    | _, _ => false))]
+  | "consistent_loop" =>
+    let ms ← listF getMS a "specs"
+    return jBool (consistentAxesLoop ms)
+  | "dims" =>
+    let ms ← listF getMS a "specs"
+    return jObj [("ok", jList (jPair jStr jNat) (mapspecDimensions ms))]
+  | "trace" =>
+    let ms ← listF getMS a "specs"
+    match traceDependencies ms with
+    | none => return jObj [("err", jStr "RecursionError")]
+    | some t => return jObj [("ok", jList (jPair jStr (jList (jPair jStr (jList jStr)))) t)]
   | "consistent" =>
     let ms ← listF getMS a "specs"
     return jBool (consistentAxes ms)
